@@ -340,6 +340,10 @@ class ConvexPolygon(GeoBody):
                 "ConvexPolygon",
                 round(self._get_point_hash_sum(), get_sig_figures() - 5),
                 hash(self.plane),
+                # hash(self.plane) does not depend on the direction of the normal
+                round(self.plane.n[0], get_sig_figures()),
+                round(self.plane.n[1], get_sig_figures()),
+                round(self.plane.n[2], get_sig_figures()),
             )
         )
 
